@@ -66,6 +66,8 @@ def objective(name, lb, ub):
         return lambda y: -0.05 / (1.0 + min(np.sum(y ** 2), 1e12))
     if name == 'tiny_positive':                        # values in (0, 0.05]
         return lambda y: 0.05 / (1.0 + min(np.sum(y ** 2), 1e12))
+    if name == 'eps_steps':                            # values on the grid of multiples of EPSILON = 1e-10 (a tiny box gives 0, 1e-10, 2e-10, ...)
+        return lambda y: round(float(np.sum(y ** 2)), 10)
     if name == 'float_max':
         return lambda y: FLOAT_MAX
     if name == 'inf_region':                           # +inf on the upper half of the first variable's range, finite elsewhere
@@ -456,6 +458,17 @@ class Monitor:
             # recorded findings whose cause is crisp carry it in their key, so that the same site failing for ANOTHER reason is not masked:
             if org in ('cs._generate_new_nests', 'fpa._global_pollination') and self.cfg.get('draws') not in ('gauss', 'mixed'):
                 org += ':without-a-scripted-zero-deviate'      # the recorded NaN needs a Gaussian draw that is exactly 0
+            if org == 'gsa._calculate_mass' and rec is not None:
+                # the recorded NaN is 0/0 for a population whose fitnesses are all equal: look at the sweep before the first NaN argument
+                try:
+                    i = next(k for k, r_ in enumerate(self.evals) if r_ is rec)
+                    n = int(self.cfg['n_agents'])
+                    s_ = (i // n) * n
+                    prev = [float(r_['val']) for r_ in self.evals[max(0, s_ - n):s_]]
+                    if len(prev) == n and all(v == v and abs(v) != float('inf') for v in prev) and len(set(prev)) > 1:
+                        org += ':distinct-fitnesses'
+                except (StopIteration, KeyError, TypeError, ValueError):
+                    pass
             if org == 'ihs.run':
                 try:
                     if float((self.cfg.get('hyperparams') or {}).get('bw_min', 1.0)) != 0.0:
